@@ -5,6 +5,7 @@ import CookModel.Lemmas.FractionDisplay
 import CookModel.Lemmas.DisplayText
 import CookModel.Lemmas.FractionNearest
 import CookModel.Lemmas.DisplayGroup
+import CookModel.Lemmas.DisplayShortest
 /-
   C12  Fraction approximation never misstates a value.
 
@@ -553,6 +554,81 @@ theorem C12_display_grouped {α : Type} [Arith α] [FloatText α] (ord : MapOrde
 /-- a group of `1/2` (a fraction with a recorded error that the alternate form would show) and `3` prints `1/2, 3` -/
 example : groupedValueDisplay [Value.number (.fraction 0 1 2 (1/100 : Rat)), .number (.regular 3)] =
     ['1', '/', '2', ',', ' ', '3'] := by decide +kernel
+
+/-- **The model's f64 printer: accuracy, shortest and closest among its candidates — for every finite non-zero double,
+    with no fuel alternative.**  `(c, s)` = the digits the search returns (`f64Text` lays out `c · 10^(-s)`,
+    `C12_display_f64_roundtrip_partial`), `sn/sd = |x| · 10^s` exactly, `m = s + k` the number of significant digits
+    (`1 ≤ m ≤ 18`).  (1) `c` is `⌊|x|·10^s⌋` or its successor, so the printed numeral differs from the exact value by
+    less than one unit of its last position: `c·sd ≤ sn + sd` and `sn < (c+1)·sd`.  (2) SHORTEST among the candidates:
+    at no digit count `1 ≤ j < m` does the truncated `j`-digit decimal or its successor read back as `x`.  (3) CLOSEST
+    among the candidates: the successor is printed only if it reads back and the truncation does not or is not closer
+    (a tie goes up); the truncation printed with `m ≤ 17` reads back, and if the successor does too the truncation is
+    strictly closer.
+    PARTIAL — still missing: (a) that 17 digits always suffice (then `m ≤ 17` always and the printed text always reads
+    back); that no OTHER `j`-digit decimal reads back (monotonicity of the correctly rounded parser: only the two
+    neighbours of the value can); and (c) that `f64Num / f64Den` is the value of the bit pattern (it is
+    `mantissa · 2^exponent` by definition).  All three are covered by the comparison with `format!` only. -/
+theorem C12_display_f64_shortest_partial (x : Float) :
+    ∃ m : Nat, 1 ≤ m ∧ m ≤ 18 ∧
+      (shortestDigits (UInt64.ofNat (x.toBits.toNat % 2 ^ 63)) (f64Num x.toBits.toNat) (f64Den x.toBits.toNat)).2 =
+        (m : Int) - decExponent (f64Num x.toBits.toNat) (f64Den x.toBits.toNat) ∧
+      ((shortestDigits (UInt64.ofNat (x.toBits.toNat % 2 ^ 63)) (f64Num x.toBits.toNat) (f64Den x.toBits.toNat)).1 *
+          scaledDen (f64Den x.toBits.toNat) ((m : Int) - decExponent (f64Num x.toBits.toNat) (f64Den x.toBits.toNat)) ≤
+        scaledNum (f64Num x.toBits.toNat) ((m : Int) - decExponent (f64Num x.toBits.toNat) (f64Den x.toBits.toNat)) +
+          scaledDen (f64Den x.toBits.toNat) ((m : Int) - decExponent (f64Num x.toBits.toNat) (f64Den x.toBits.toNat)) ∧
+       scaledNum (f64Num x.toBits.toNat) ((m : Int) - decExponent (f64Num x.toBits.toNat) (f64Den x.toBits.toNat)) <
+        ((shortestDigits (UInt64.ofNat (x.toBits.toNat % 2 ^ 63)) (f64Num x.toBits.toNat) (f64Den x.toBits.toNat)).1 + 1) *
+          scaledDen (f64Den x.toBits.toNat) ((m : Int) - decExponent (f64Num x.toBits.toNat) (f64Den x.toBits.toNat))) ∧
+      (∀ j, 1 ≤ j → j < m →
+        bitsOfDecimal (dshLo (f64Num x.toBits.toNat) (f64Den x.toBits.toNat)
+            (decExponent (f64Num x.toBits.toNat) (f64Den x.toBits.toNat)) j)
+          ((j : Int) - decExponent (f64Num x.toBits.toNat) (f64Den x.toBits.toNat)) ≠
+            UInt64.ofNat (x.toBits.toNat % 2 ^ 63) ∧
+        bitsOfDecimal (dshLo (f64Num x.toBits.toNat) (f64Den x.toBits.toNat)
+            (decExponent (f64Num x.toBits.toNat) (f64Den x.toBits.toNat)) j + 1)
+          ((j : Int) - decExponent (f64Num x.toBits.toNat) (f64Den x.toBits.toNat)) ≠
+            UInt64.ofNat (x.toBits.toNat % 2 ^ 63)) ∧
+      ((shortestDigits (UInt64.ofNat (x.toBits.toNat % 2 ^ 63)) (f64Num x.toBits.toNat) (f64Den x.toBits.toNat)).1 =
+          dshLo (f64Num x.toBits.toNat) (f64Den x.toBits.toNat)
+            (decExponent (f64Num x.toBits.toNat) (f64Den x.toBits.toNat)) m + 1 →
+        bitsOfDecimal (dshLo (f64Num x.toBits.toNat) (f64Den x.toBits.toNat)
+            (decExponent (f64Num x.toBits.toNat) (f64Den x.toBits.toNat)) m + 1)
+          ((m : Int) - decExponent (f64Num x.toBits.toNat) (f64Den x.toBits.toNat)) =
+            UInt64.ofNat (x.toBits.toNat % 2 ^ 63) ∧
+        (bitsOfDecimal (dshLo (f64Num x.toBits.toNat) (f64Den x.toBits.toNat)
+            (decExponent (f64Num x.toBits.toNat) (f64Den x.toBits.toNat)) m)
+          ((m : Int) - decExponent (f64Num x.toBits.toNat) (f64Den x.toBits.toNat)) =
+            UInt64.ofNat (x.toBits.toNat % 2 ^ 63) →
+          2 * dshRem (f64Num x.toBits.toNat) (f64Den x.toBits.toNat)
+              (decExponent (f64Num x.toBits.toNat) (f64Den x.toBits.toNat)) m ≥
+            scaledDen (f64Den x.toBits.toNat) ((m : Int) - decExponent (f64Num x.toBits.toNat) (f64Den x.toBits.toNat)))) ∧
+      ((shortestDigits (UInt64.ofNat (x.toBits.toNat % 2 ^ 63)) (f64Num x.toBits.toNat) (f64Den x.toBits.toNat)).1 =
+          dshLo (f64Num x.toBits.toNat) (f64Den x.toBits.toNat)
+            (decExponent (f64Num x.toBits.toNat) (f64Den x.toBits.toNat)) m → m ≤ 17 →
+        bitsOfDecimal (dshLo (f64Num x.toBits.toNat) (f64Den x.toBits.toNat)
+            (decExponent (f64Num x.toBits.toNat) (f64Den x.toBits.toNat)) m)
+          ((m : Int) - decExponent (f64Num x.toBits.toNat) (f64Den x.toBits.toNat)) =
+            UInt64.ofNat (x.toBits.toNat % 2 ^ 63) ∧
+        (bitsOfDecimal (dshLo (f64Num x.toBits.toNat) (f64Den x.toBits.toNat)
+            (decExponent (f64Num x.toBits.toNat) (f64Den x.toBits.toNat)) m + 1)
+          ((m : Int) - decExponent (f64Num x.toBits.toNat) (f64Den x.toBits.toNat)) =
+            UInt64.ofNat (x.toBits.toNat % 2 ^ 63) →
+          2 * dshRem (f64Num x.toBits.toNat) (f64Den x.toBits.toNat)
+              (decExponent (f64Num x.toBits.toNat) (f64Den x.toBits.toNat)) m <
+            scaledDen (f64Den x.toBits.toNat) ((m : Int) - decExponent (f64Num x.toBits.toNat) (f64Den x.toBits.toNat)))) := by
+  obtain ⟨m, h1, h2, hs, hc, hshort, hA, hB⟩ :=
+    dsh_shortestFrom_spec (UInt64.ofNat (x.toBits.toNat % 2 ^ 63)) (f64Num x.toBits.toNat) (f64Den x.toBits.toNat)
+      (decExponent (f64Num x.toBits.toNat) (f64Den x.toBits.toNat)) 17 1
+  refine ⟨m, h1, h2, hs, ?_, hshort, hA, ?_⟩
+  · exact dsh_within_one _ _ _ m _ (dsh_f64Den_pos _) hc
+  · intro hr hm; exact hB hr (by omega)
+
+/-- the statement speaks about something: `0.1` (bits `0x3FB999999999999A`) is found at ONE significant digit
+    (`c = 1`, `s = 1`: the successor of the truncation `0`), `0.3` likewise with `c = 3` -/
+example : shortestDigits (UInt64.ofNat (0x3FB999999999999A % 2 ^ 63)) (f64Num 0x3FB999999999999A)
+    (f64Den 0x3FB999999999999A) = (1, 1) ∧
+    shortestDigits (UInt64.ofNat (0x3FD3333333333333 % 2 ^ 63)) (f64Num 0x3FD3333333333333)
+    (f64Den 0x3FD3333333333333) = (3, 1) := by decide +kernel
 -- ===== end w6numeric =====
 
 end Cook
